@@ -392,17 +392,17 @@ func (d *DNSFilter) Settings() (s *Settings) {
 
 // WriteDiskConfig - write configuration
 func (d *DNSFilter) WriteDiskConfig(c *Config) {
-	func() {
-		d.confMu.Lock()
-		defer d.confMu.Unlock()
+	d.confMu.Lock()
+	defer d.confMu.Unlock()
 
-		*c = *d.conf
-		c.Rewrites = cloneRewrites(c.Rewrites)
-	}()
+	// Hold the filters lock as well while copying the whole structure, since
+	// the copy also reads the fields protected by it.  Lock it for writing,
+	// because the enabled flag is stored atomically under the read lock.
+	d.conf.filtersMu.Lock()
+	defer d.conf.filtersMu.Unlock()
 
-	d.conf.filtersMu.RLock()
-	defer d.conf.filtersMu.RUnlock()
-
+	*c = *d.conf
+	c.Rewrites = cloneRewrites(c.Rewrites)
 	c.Filters = slices.Clone(d.conf.Filters)
 	c.WhitelistFilters = slices.Clone(d.conf.WhitelistFilters)
 	c.UserRules = slices.Clone(d.conf.UserRules)
